@@ -80,7 +80,7 @@ CLAIMS = {
              "tied by exact equality with layer.indices / kernel_pairs of real constructors under recorded draws.",
         design_ref="DESIGN.md section 6 C13",
         note="Coq kernel (closed theorems); torch.randperm/randint return permutations / in-range values (trusted); the slice-level "
-             "mirror of get_unique_connections equals the closed form by kernel computation for in_dim <= 24 (bounded).",
+             "mirror of get_unique_connections is proved equal to the closed form for every size (C13_unique_slices).",
         technique="Rocq/Coq proof (Permutation/NoDup reasoning over a model parameterised by the draws) + exact differential correspondence",
     ),
     "C07": dict(
